@@ -153,6 +153,13 @@ def sharded_pipeline(total, batch_size, shard_index=0, num_shards=1, fuse=True,
       name='apply', num_threads=num_threads).apply(fn=times10)
   if not agg:
     return data.chain(apply)
+  if agg == 'two':
+    # aggregates in two separately named stages (input statistics + output
+    # statistics): every shard state carries the keys of both
+    pre = transform.TreeTransform.new(name='datasource').data_source(
+        sharded_rows(total, batch_size, shard_index, num_shards)).aggregate(
+            output_keys='in_stats', fn=SumCount())
+    return pre.chain(apply.aggregate(output_keys='stats', fn=SumCount()))
   if fuse:
     return data.chain(apply.aggregate(output_keys='stats', fn=SumCount()))
   return data.chain(apply).chain(
